@@ -760,6 +760,8 @@ class SSHTransportBase(protocol.Protocol):
                         return
                     i = lines.index(p)
                     self.buf = b"\n".join(lines[i + 1 :])
+                    # What follows the version string is binary packet data.
+                    break
             if not self.gotVersion:
                 # Only lines that precede the version string so far
                 # (RFC 4253 section 4.2): keep waiting for it.
